@@ -135,6 +135,36 @@ fn worker(args: &[String]) {
                 let _ = writeln!(l, "DONE {} {}", a, b);
                 let _ = l.flush();
             }
+            Some("FILE") => {
+                // a committed corpus trace: run it under this property's oracles
+                let k: u64 = it.next().unwrap().parse().unwrap();
+                let path = it.next().unwrap().to_string();
+                {
+                    let out = std::io::stdout();
+                    let mut l = out.lock();
+                    let _ = writeln!(l, "BEGIN {}", k);
+                    let _ = l.flush();
+                }
+                let p = prop.clone();
+                let rep = on_small_stack(move || {
+                    let text = std::fs::read_to_string(&path).unwrap_or_default();
+                    let tr = serde_json::from_str::<trace::ReplayFile>(&text).map(|r| r.trace).unwrap_or(trace::Trace {
+                        prop: p.clone(),
+                        run_seed: 0,
+                        swarm: String::new(),
+                        parsers: vec![],
+                        events: vec![],
+                        sim_ns: 0,
+                    });
+                    let out = exec::run_trace(&tr, &p, None);
+                    RunReport { index: k, run_seed: tr.run_seed, findings: out.findings, stats: out.stats, fired: Default::default(), events: tr.events.len(), raw: Some(path) }
+                });
+                let out = std::io::stdout();
+                let mut l = out.lock();
+                let _ = writeln!(l, "END {}", serde_json::to_string(&rep).unwrap());
+                let _ = writeln!(l, "DONE {} {}", k, k + 1);
+                let _ = l.flush();
+            }
             Some("QUIT") | None => break,
             _ => {}
         }
